@@ -80,6 +80,10 @@ class Impl:
             elif k == "CGET":
                 env._active_proc = self.caller(0)
                 res = "ok" if fl.reserve_get_cancel(self.toks[op[1]]) else "ret"
+            elif k == "FINAL":
+                # a statistics checkpoint in the middle of a run: reads, does not change what the fleet holds
+                fl.update_final_fleet_avg_content(env.now)
+                res = "ok"
             elif k == "PROBE":
                 occ = fl.get_occupancy() if hasattr(fl, "get_occupancy") else fl.occupancy()
                 res = "probe:%s,%s,%d" % (str(bool(fl.can_put())).lower(), str(bool(fl.can_get())).lower(), occ)
@@ -139,7 +143,7 @@ def run_impl(case):
         else:
             res, trig = im.api(op)
             micro.append(op); rows.append((res, trig, im.state()))
-            mops.append([(op[0], op[1], 0)] if op[0] in ("RPUT", "RGET") else [op])
+            mops.append([(op[0], op[1], 0)] if op[0] in ("RPUT", "RGET") else ([] if op[0] == "FINAL" else [op]))
             if res.startswith("err:") and op[0] == "PROBE":
                 pass
     return micro, rows, mops
@@ -297,7 +301,7 @@ def gen_case(rng, n_ops):
         st = im.st
         gp, gg = tokens_in(st.reservations_put), tokens_in(st.reservations_get)
         pp, pg = tokens_in(st.reserve_put_queue), tokens_in(st.reserve_get_queue)
-        ch = [("RPUT", 6), ("RGET", 4), ("STEP", 4), ("ADV", 5), ("PROBE", 3)]
+        ch = [("RPUT", 6), ("RGET", 4), ("STEP", 4), ("ADV", 5), ("PROBE", 3), ("FINAL", 1)]
         if gp:
             ch.append(("LOAD", 10))
         if gg:
@@ -325,6 +329,8 @@ def gen_case(rng, n_ops):
                 do(("CGET", rng.choice(gg + pg)))
             elif k == "STEP":
                 do(("STEP",))
+            elif k == "FINAL":
+                do(("FINAL",))
             elif k == "PROBE":
                 do(("PROBE",))
                 n0 = len(im.toks)
